@@ -8,7 +8,7 @@ from .common import scratch, MachineryError
 JUDGE_CFG = "INIT Init\nNEXT Next\nINVARIANT Emit\n"
 
 
-def judge(module, records, chunk=15000, procs=6, workers=2, heap="4g", timeout=1500, strip=()):
+def judge(module, records, chunk=15000, procs=6, workers=2, heap="4g", timeout=1500, strip=(), xss=None):
     """records: list of dicts with a unique "id"; -> ({id: bad}, merged TlcResult)"""
     if not records:
         raise MachineryError("nothing to judge")
@@ -20,7 +20,7 @@ def judge(module, records, chunk=15000, procs=6, workers=2, heap="4g", timeout=1
         with open(f, "w") as fh:
             for r in recs:
                 fh.write(json.dumps({k: x for k, x in r.items() if k not in strip}) + "\n")
-        res = tlc.run(module, JUDGE_CFG, env={"TRACE_FILE": str(f)}, workers=workers, heap=heap, timeout=timeout)
+        res = tlc.run(module, JUDGE_CFG, env={"TRACE_FILE": str(f)}, workers=workers, heap=heap, timeout=timeout, xss=xss)
         f.unlink()
         return res
     with ThreadPoolExecutor(max_workers=procs) as ex:
